@@ -8,6 +8,7 @@ requiring them (read_excel() or write_excel()) are called for the first time.
 
 """
 import os
+from contextlib import closing
 from enum import Enum, auto
 from os import PathLike
 from pathlib import Path
@@ -98,14 +99,16 @@ def read_excel(
             logger.debug(f"Skipping sheet '{name}'")
             continue
         location_sheet = location_file.make_location_sheet(name)
-        yield from parse_blocks(
-            row_cell_iter,
-            location_sheet=location_sheet,
-            fixer=fixer,
-            to=to,
-            filter=filter,
-            issue_tracker=issue_tracker,
-        )
+        # Close the row iterator when done or on error: it keeps the workbook file open
+        with closing(row_cell_iter):
+            yield from parse_blocks(
+                row_cell_iter,
+                location_sheet=location_sheet,
+                fixer=fixer,
+                to=to,
+                filter=filter,
+                issue_tracker=issue_tracker,
+            )
 
 
 class ExcelWriteBackend(Enum):
